@@ -5,6 +5,8 @@ package c20
 
 import (
 	"context"
+	"sync"
+	"time"
 	"errors"
 	"fmt"
 	"strings"
@@ -22,7 +24,7 @@ func (Prop) Rule() string {
 	return "lifecycle: every list of <= N components (N=5 quick, 7 thorough), each plain or runnable, x every single failure point (none, Init of i, Run of runnable i) x close-error mask variant, enumerated exhaustively; a case is non-trivial when at least one runnable component exists; distinct = (kinds, failure point, variant). nesting: every assignment of names {a,b,c} subsets to container levels of depth <= 3 (4 thorough), every name looked up from every level."
 }
 func (Prop) Assumptions() []string {
-	return []string{"components are registered before Start and not concurrently with it", "Close(ctx) is called once after a successful Start"}
+	return []string{"Close(ctx) is called once after a successful Start", "a component registered concurrently with Start (workload late-register) may or may not be started, but is never run without having been initialised"}
 }
 
 type lcCase struct {
@@ -106,6 +108,7 @@ func (Prop) Plan(tier string) []lib.Workload {
 	return []lib.Workload{
 		{Name: "lifecycle", Cases: len(enumLifecycle(maxN(tier))), Exhaustive: true, MinNontrivial: 100, Batches: 4},
 		{Name: "nesting", Cases: len(enumNesting(maxDepth(tier))), Exhaustive: true, MinNontrivial: 100, Batches: 4},
+		{Name: "late-register", Cases: lateCases, Exhaustive: true, MinNontrivial: lateCases / 2, Batches: 4, CaseTimeout: 2 * time.Minute},
 	}
 }
 
@@ -222,6 +225,8 @@ func (Prop) RunCase(c *lib.Case) {
 		runLifecycle(c)
 	case "nesting":
 		runNesting(c)
+	case "late-register":
+		runLateRegister(c)
 	}
 }
 
@@ -480,4 +485,200 @@ func contains(s []string, n string) bool {
 		}
 	}
 	return false
+}
+
+// late-register: while Start is running, a goroutine started by one component's Init registers
+// one more (runnable or plain) component. Whatever the container does with the late component
+// (on the unchanged tree Register waits until Start has returned, so it is simply never started),
+// it must never Run a component that was not initialised, never Init after the first Run, and
+// Start / Close must not panic. (Added after seeded change C20-2 - Start iterating a snapshot for
+// Init but the live list for Run - was missed; the other workloads register everything up front.)
+const lateCases = 4 * 4 * 2 * 2 // list size 1..4 x spawner position x late kind x late Run fails
+
+type spawner struct {
+	rcomp
+	late    app.Component
+	started chan struct{}
+	wg      *sync.WaitGroup
+}
+
+func (s *spawner) Init(a *app.App) error {
+	err := s.rcomp.comp.Init(a)
+	s.wg.Add(1)
+	go func() {
+		defer s.wg.Done()
+		close(s.started)
+		defer func() { _ = recover() }() // "already registered" panics are not the subject here
+		a.Register(s.late)
+	}()
+	<-s.started
+	// give the registering goroutine a chance to get in before the next component is initialised
+	for i := 0; i < 50; i++ {
+		time.Sleep(100 * time.Microsecond)
+	}
+	return err
+}
+
+func runLateRegister(c *lib.Case) {
+	idx := c.Index
+	n := 1 + idx%4
+	idx /= 4
+	pos := idx % 4 % n
+	idx /= 4
+	lateRunnable := idx%2 == 0
+	idx /= 2
+	lateFails := idx%2 == 1
+	var mu sync.Mutex
+	l := &logger{inited: map[string]bool{}, running: map[string]bool{}, closed: map[string]int{}, n: -1, order: map[string]int{}}
+	lockedLog := &l.events
+	_ = lockedLog
+	a := new(app.App)
+	var wg sync.WaitGroup
+	var gotNil []string
+	mk := func(name string, i int) comp { return comp{name: name, idx: i, l: l, gotNil: &gotNil} }
+	var late app.Component
+	if lateRunnable {
+		rc := &rcomp{comp: mk("late", 99)}
+		if lateFails {
+			rc.runErr = errInjected
+		}
+		late = &lockedR{rc, &mu}
+	} else {
+		cp := mk("late", 99)
+		late = &lockedP{&cp, &mu}
+	}
+	for i := 0; i < n; i++ {
+		name := fmt.Sprintf("c%d", i)
+		l.order[name] = i
+		if i == pos {
+			sp := &spawner{rcomp: rcomp{comp: mk(name, i)}, late: late, started: make(chan struct{}), wg: &wg}
+			a.Register(&lockedS{sp, &mu})
+		} else if i%2 == 0 {
+			a.Register(&lockedR{&rcomp{comp: mk(name, i)}, &mu})
+		} else {
+			cp := mk(name, i)
+			a.Register(&lockedP{&cp, &mu})
+		}
+	}
+	l.order["late"] = 99
+	var startErr, closeErr error
+	panicked := ""
+	func() {
+		defer func() {
+			if r := recover(); r != nil {
+				panicked = fmt.Sprint(r)
+			}
+		}()
+		startErr = a.Start(context.Background())
+	}()
+	wg.Wait()
+	if panicked == "" && startErr == nil {
+		func() {
+			defer func() {
+				if r := recover(); r != nil {
+					panicked = "close: " + fmt.Sprint(r)
+				}
+			}()
+			closeErr = a.Close(context.Background())
+		}()
+	}
+	_ = closeErr
+	mu.Lock()
+	events := append([]string{}, l.events...)
+	mu.Unlock()
+	c.Eval(1)
+	desc := fmt.Sprintf("n=%d spawner@%d late=%v lateRunFails=%v", n, pos, map[bool]string{true: "runnable", false: "plain"}[lateRunnable], lateFails)
+	c.Nontrivial(desc)
+	c.Sample("late-register", map[string]any{"case": desc, "events": events, "start_err": fmt.Sprint(startErr)})
+	det := map[string]any{"case": desc, "events": events, "start_err": fmt.Sprint(startErr), "panic": panicked}
+	if panicked != "" {
+		c.Violation("late-register:panic", "Start/Close panicked when a component was registered while Start was running", det)
+	}
+	inited := map[string]bool{}
+	firstRun := -1
+	for i, e := range events {
+		switch {
+		case len(e) > 5 && e[:5] == "init:":
+			inited[e[5:]] = true
+			if firstRun >= 0 {
+				c.Violation("late-register:init-after-run", "a component was initialised after another one had already been run", det)
+			}
+		case len(e) > 4 && e[:4] == "run:":
+			if firstRun < 0 {
+				firstRun = i
+			}
+			if !inited[e[4:]] {
+				c.Violation("late-register:run-before-init", "the container ran a component it never initialised", det)
+			}
+		}
+	}
+	c.Count("late.events", int64(len(events)))
+	if inited["late"] {
+		c.Count("late.component_was_started", 1)
+	} else {
+		c.Count("late.component_not_started", 1)
+	}
+}
+
+// wrappers serialising the shared event log (the late Register runs on another goroutine)
+type lockedR struct {
+	*rcomp
+	mu *sync.Mutex
+}
+
+func (x *lockedR) Init(a *app.App) error { x.mu.Lock(); defer x.mu.Unlock(); return x.rcomp.Init(a) }
+func (x *lockedR) Run(ctx context.Context) error {
+	x.mu.Lock()
+	defer x.mu.Unlock()
+	x.l.events = append(x.l.events, "run:"+x.name)
+	x.l.running[x.name] = true
+	return x.runErr
+}
+func (x *lockedR) Close(ctx context.Context) error {
+	x.mu.Lock()
+	defer x.mu.Unlock()
+	x.l.events = append(x.l.events, "close:"+x.name)
+	return nil
+}
+
+type lockedP struct {
+	*comp
+	mu *sync.Mutex
+}
+
+func (x *lockedP) Init(a *app.App) error { x.mu.Lock(); defer x.mu.Unlock(); return x.comp.Init(a) }
+
+type lockedS struct {
+	*spawner
+	mu *sync.Mutex
+}
+
+func (x *lockedS) Init(a *app.App) error {
+	x.mu.Lock()
+	err := x.spawner.rcomp.comp.Init(a)
+	x.mu.Unlock()
+	x.wg.Add(1)
+	go func() {
+		defer x.wg.Done()
+		close(x.started)
+		defer func() { _ = recover() }()
+		a.Register(x.late)
+	}()
+	<-x.started
+	for i := 0; i < 50; i++ {
+		time.Sleep(100 * time.Microsecond)
+	}
+	return err
+}
+func (x *lockedS) Run(ctx context.Context) error {
+	x.mu.Lock()
+	defer x.mu.Unlock()
+	x.l.events = append(x.l.events, "run:"+x.name)
+	return nil
+}
+func (x *lockedS) Close(ctx context.Context) error {
+	x.mu.Lock()
+	defer x.mu.Unlock()
+	x.l.events = append(x.l.events, "close:"+x.name)
+	return nil
 }
